@@ -68,6 +68,17 @@ Theorem src_decorators_copy_and_register :
 Proof. split; reflexivity. Qed.
 Print Assumptions src_decorators_copy_and_register.
 
+(* _validate_ref_props has the form the model's ref_ok transcribes: the text after the LAST underscore
+   (Registry.tail_us) is compared with "ref" / "refs" *)
+Theorem src_ref_rule_shape : src_ref_rule_last_underscore = true.
+Proof. reflexivity. Qed.
+Print Assumptions src_ref_rule_shape.
+
+Example tail_us_examples :
+  tail_us (u "src_host_ref") = u "ref" /\ tail_us (u "a_ref_b") = u "b" /\ tail_us (u "ref") = u "ref" /\
+  tail_us (u "related_host_refs") = u "refs".
+Proof. vm_compute. repeat split. Qed.
+
 (* ---------------- the naming rules, AT THE CURRENT SOURCE ----------------
    The equivalences of Props/C19.v (type_name_rule, ext_name_rule, prop_name_rule) are conditional on
    the variant; here they are discharged for the variant the regex texts of the current source
